@@ -150,3 +150,31 @@ pub fn event_leaves(e: &qrlew::differential_privacy::DpEvent, out: &mut Vec<(Str
         _ => out.push(("other".into(), 0.0, 0.0)),
     }
 }
+
+/// the grouping columns of the sum a noise site perturbs, named as in the relation holding the
+/// _CLIPPED_ columns (the group-by of the Reduce below the noise map, chased through renaming maps)
+pub fn site_group_keys(rel: &Relation, site: &NoiseSite) -> Option<Vec<String>> {
+    for n in all_nodes(rel) {
+        if let Relation::Map(m) = n {
+            if m.name() != site.map { continue; }
+            if let Relation::Reduce(r) = m.input() {
+                let mut keys = vec![];
+                for g in r.group_by().iter() {
+                    let mut c = g.last().ok()?.to_string();
+                    let mut cur: &Relation = r.input();
+                    for _ in 0..4 {
+                        if let Relation::Map(mm) = cur {
+                            if mm.schema().iter().any(|f| f.name().starts_with("_CLIPPED_")) { break; }
+                            let mut next = None;
+                            for (ff, ee) in mm.schema().iter().zip(mm.projection().iter()) { if ff.name() == c { next = column_name(ee); } }
+                            match next { Some(nn) => { c = nn; cur = mm.input(); } None => return None }
+                        } else { return None; }
+                    }
+                    keys.push(c);
+                }
+                return Some(keys);
+            }
+        }
+    }
+    None
+}
